@@ -652,6 +652,38 @@ def _value_position(value, name):
     return False
 
 
+def r10_block_bandwidth(idx, r):
+    """getBlockBandwidth splits nintj rows into nblok blocks: rows per block must be the CEILING of
+    nintj/nblok (so that nblok blocks cover every row) and consecutive blocks must be contiguous."""
+    from ..exprnf import ExprEval, Poly
+
+    f = idx.func(CCCC + ".getBlockBandwidth")
+    m_, n_, b_ = f.params()[:3]
+    env = single_assign_env(f.node)
+    x = env.get("x")
+    if x is None:
+        raise AnalysisError("getBlockBandwidth: rows-per-block `x` not found")
+    t = norm(x)
+    ceil_idioms = {f"({n_} - 1) // {b_} + 1", f"({n_} + {b_} - 1) // {b_}", f"-(-{n_} // {b_})", f"math.ceil({n_} / {b_})", f"int(math.ceil({n_} / {b_}))", f"1 + ({n_} - 1) // {b_}"}
+    r.require(t in ceil_idioms, "rows-per-block-is-ceiling", f, node=x, msg=f"rows per block `{t}` must be ceil({n_}/{b_}); with a floor the last rows of the record are never written nor read when {n_} is not a multiple of {b_}")
+    E = ExprEval(env={"x": Poly.atom("x"), m_: Poly.atom("m")}, opaque=True)
+    lo, hi = env.get("jLow"), env.get("jHigh")
+    oklo = lo is not None and E.ev(lo) == (Poly.atom("m") - 1) * Poly.atom("x") + 1
+    okhi = hi is not None and isinstance(hi, ast.Call) and dotted(hi.func) == "min" and {norm(a) for a in hi.args} == {n_, f"{m_} * x"}
+    r.require(oklo and okhi, "blocks-contiguous", f, msg=f"block m spans rows (m-1)x+1 .. min(n, m x): jLow=`{norm(lo) if lo else None}`, jHigh=`{norm(hi) if hi else None}`")
+    ret = next((n for n in walk_local(f.node) if isinstance(n, ast.Return)), None)
+    r.require(ret is not None and norm(ret.value) == "(jLow - 1, jHigh - 1)", "zero-based-bounds", f, node=ret, msg="returned bounds are the zero-based (low, high) rows")
+    users = 0
+    for m in _cccc_modules(idx):
+        for g in m.all_funcs():
+            for c in iter_calls(g.node):
+                if (dotted(c.func) or "").endswith("getBlockBandwidth"):
+                    users += 1
+                    r.require(len(c.args) == 3, f"{m.relpath.rsplit('/', 1)[-1]}:{g.qualname}:bandwidth-call", g, node=c, msg="getBlockBandwidth(m, nintj, nblok)")
+    if users < 3:
+        raise AnalysisError("users of getBlockBandwidth not found")
+
+
 def run(idx, chk):
     chk.explanation = (
         "C09: static reader/writer agreement for CCCC records: struct formats, byte counters and ASCII field widths of "
@@ -684,6 +716,8 @@ def run(idx, chk):
                  necessary="an unsatisfiable guard drops a record for every header value; a duplicate key loses a field")
     chk.run_rule("R09.7", "each format exports read/write x binary/ascii bound to the right mode and record class", lambda r: r7_api(idx, r), floor=30,
                  necessary="a mode mapped to the wrong record class reads text as binary or vice versa")
+    chk.run_rule("R09.10", "sub-blocked records: rows per block is the ceiling of rows/blocks and blocks are contiguous", lambda r: r10_block_bandwidth(idx, r), floor=5,
+                 necessary="every row announced by the header is inside some block of the record")
     chk.run_rule("R09.8", "a header-derived count bound to the same local name in two methods of a stream class has one definition", lambda r: r8_header_locals(idx, r), floor=4,
                  necessary="allocation/announcement and loop bound must agree or data is dropped from the record")
     chk.run_rule("R09.9", "no fresh mutable placeholder object is stored into two different fields of the container", lambda r: r9_no_shared_placeholder(idx, r), floor=10,
